@@ -157,8 +157,10 @@ def decls(vs, cs, rng, pfx):
         clock, fp = v[1], v[2]
         n = '%sv%d' % (pfx, k)
         if clock:
-            shape = rng.choice(['plain', 'plain', 'array', 'record'])
+            shape = rng.choice(['plain', 'plain', 'array', 'record', 'rows', 'named-record'])
             if shape == 'array': out.append('clock %s[2]%s;' % (n, ' = {1, 2.5}' if fp else (' = {1, 2}' if len(v) > 3 else '')))
+            elif shape == 'rows': out.append('typedef clock %s_row[2]; %s_row %s[2]%s;' % (n, n, n, ' = {{1, 2.5}, {1, 1}}' if fp else (' = {{1, 2}, {1, 1}}' if len(v) > 3 else '')))     # an array of named clock arrays
+            elif shape == 'named-record': out.append('typedef struct { int k; clock c; } %s_rec; %s_rec %s[2]%s;' % (n, n, n, ' = {{2, 1}, {2, 1.5}}' if fp else (' = {{2, 1}, {2, 1}}' if len(v) > 3 else '')))
             elif shape == 'record': out.append('struct { int k; clock c; } %s%s;' % (n, ' = {2, 1.5}' if fp else (' = {2, 1}' if len(v) > 3 else '')))
             else: out.append('clock %s%s;' % (n, ' = 1.5' if fp else (' = 1' if len(v) > 3 else '')))
         else:
